@@ -46,6 +46,8 @@ extern int fmc_on_quiescent(void) __attribute__((weak));
 // idx (0..7) is performed by this callback; fmc_env_nalts says how many exist.
 extern void fmc_env_alt(int idx) __attribute__((weak));
 extern int fmc_env_nalts __attribute__((weak));
+// enumerate an input or program parameter: all values 0..n-1 (n<=16) are explored, cost-free
+int fmc_input(int n);
 // an explicit environment choice (cost 1 of E for every answer != 0)
 int fmc_env_choose(int nalts);
 
@@ -62,6 +64,7 @@ void fmc_heap_check(const void* p, size_t n, const char* what);
 #define FMC_O_STACK 2u    // access below another fiber's live stack is a violation
 #define FMC_O_RUNMAP 4u   // C01 fiber run map (runtime harnesses)
 #define FMC_O_WAKES 8u    // C02 wake accounting (runtime harnesses)
+#define FMC_O_RECLAIM 16u // C04: a fiber is reclaimed once, only when finished, saved and not queued
 void fmc_oracles(unsigned mask);
 unsigned fmc_oracle_mask(void);
 
